@@ -348,7 +348,7 @@ func (db *RockDB) ZFixKey(ts int64, key []byte) error {
 		dbLog.Infof("get zset card failed: %v", err.Error())
 		return err
 	}
-	elems, err := db.ZRange(key, 0, -1)
+	elems, err := db.zRangeGeneric(ts, key, 0, -1, false)
 	if err != nil {
 		dbLog.Infof("get zset range failed: %v", err.Error())
 		return err
@@ -1008,7 +1008,10 @@ func (db *RockDB) ZRevRangeByScore(key []byte, min float64, max float64, offset 
 }
 
 func (db *RockDB) ZRangeGeneric(key []byte, start int, stop int, reverse bool) ([]common.ScorePair, error) {
-	tn := time.Now().UnixNano()
+	return db.zRangeGeneric(time.Now().UnixNano(), key, start, stop, reverse)
+}
+
+func (db *RockDB) zRangeGeneric(tn int64, key []byte, start int, stop int, reverse bool) ([]common.ScorePair, error) {
 	keyInfo, err := db.getCollVerKeyForRange(tn, ZSetType, key, true)
 	if err != nil {
 		return nil, err
